@@ -660,18 +660,19 @@ def ev_topk(pl) -> Res:
     """multiclass_accuracy / MulticlassAccuracy with average=None: entry c = the micro top-k accuracy of the samples labelled c
     alone (NaN for a class without samples); macro = the mean over the classes that have samples."""
     res = Res()
-    C, k, avg, as_class = pl["C"], pl["p"]["k"], pl["p"]["average"], pl.get("cls", False)
+    C, k, avg_given, as_class = pl["C"], pl["p"]["k"], pl["p"]["average"], pl.get("cls", False)
+    avg = None if avg_given == "none" else avg_given        # "none" is the accepted string spelling of None: same per-class result
     batches = [{kk: jt(v) for kk, v in b.items()} for b in pl["batches"]]
     res.site = "MulticlassAccuracy" if as_class else "multiclass_accuracy"
-    res.cfg = f"average={avg},k={k}"
+    res.cfg = f"average={avg_given},k={k}"
 
     def multi(bs):
         if as_class:
-            m = M.MulticlassAccuracy(num_classes=C, average=avg, k=k)
+            m = M.MulticlassAccuracy(num_classes=C, average=avg_given, k=k)
             for b in bs:
                 m.update(b["input"], b["target"])
             return obs(m)
-        return call_real(F.multiclass_accuracy, bs[0]["input"], bs[0]["target"], num_classes=C, average=avg, k=k)
+        return call_real(F.multiclass_accuracy, bs[0]["input"], bs[0]["target"], num_classes=C, average=avg_given, k=k)
 
     def single(c):
         if as_class:
@@ -734,7 +735,7 @@ def gen_topk(rng: Rng, tier):
             batches.append({"input": tj(rows_tensor([scores(rng, C, pr[0], [Fr(0), Fr(1, 2), Fr(1)] if rng.random() < 0.5 else G8) for pr in profs], "f32")),
                             "target": tj(torch.tensor([rng.choice(present) for _ in range(n)], dtype=torch.int64))})
             alts.append(tj(rows_tensor([scores(rng, C, "grid") for _ in range(n)], "f32")))
-        yield {"fam": "topk", "cls": as_class, "C": C, "p": {"k": k, "average": rng.choice([None, None, "macro"])}, "batches": batches,
+        yield {"fam": "topk", "cls": as_class, "C": C, "p": {"k": k, "average": rng.choice([None, None, "none", "macro"])}, "batches": batches,
                "alt": alts, "altj": rng.randrange(C)}
 
 # ================================================================== class families
